@@ -7,6 +7,7 @@ package main
 
 import (
 	"bytes"
+	"crypto/tls"
 	"encoding/binary"
 	"fmt"
 	"io"
@@ -31,6 +32,27 @@ type srvCfg struct {
 	maxBody       int
 	reqTimeoutMs  int // fasthttp.Server.ReadTimeout = the server's request timeout (0: none)
 	idleMs        int // fasthttp.Server.IdleTimeout = the server's idle timeout (0: none)
+	// how the server is built (Impl/ServerSetup.v): 0 = ConfigureServer with the values above; 1 = ConfigureServer with
+	// every value that equals its default given as zero / negative instead; 2 = ConfigureServerAndConfig (no
+	// ServerConfig at all: only for maxStreams = 1024 and maxHeaderList = 1<<20, the defaults)
+	ctor int
+}
+
+// rawConfig returns what the user hands over for this scenario: ServerConfig values and the fasthttp body limit.
+func (c srvCfg) rawConfig() (ms, hl, mb int) {
+	ms, hl, mb = c.maxStreams, c.maxHeaderList, c.maxBody
+	if c.ctor >= 1 {
+		if ms == 1024 {
+			ms = []int{0, -3}[(c.maxBody/4)%2]
+		}
+		if hl == 1<<20 {
+			hl = 0
+		}
+		if mb == 4<<20 {
+			mb = []int{0, -1}[c.ctor-1]
+		}
+	}
+	return
 }
 
 type frameSpec struct {
@@ -224,6 +246,9 @@ func (sc *scenario) String() string {
 	if sc.cfg.idleMs > 0 {
 		head += fmt.Sprintf(",it=%d", sc.cfg.idleMs)
 	}
+	if sc.cfg.ctor > 0 {
+		head += fmt.Sprintf(",ct=%d", sc.cfg.ctor)
+	}
 	parts := []string{head}
 	for i := range sc.evs {
 		parts = append(parts, sc.evs[i].String())
@@ -249,6 +274,8 @@ func parseScenario(line string) *scenario {
 			sc.cfg.reqTimeoutMs = v
 		case "it":
 			sc.cfg.idleMs = v
+		case "ct":
+			sc.cfg.ctor = v
 		}
 	}
 	for _, p := range parts[1:] {
@@ -485,9 +512,16 @@ func runServerScenario(sc *scenario) string {
 			ctx.Response.SetBody(r.body)
 		}
 	}
-	fs := &fasthttp.Server{Handler: handler, MaxRequestBodySize: sc.cfg.maxBody, NoDefaultServerHeader: true, NoDefaultDate: true, NoDefaultContentType: true, Logger: runLogger{run},
+	rawMS, rawHL, rawMB := sc.cfg.rawConfig()
+	fs := &fasthttp.Server{Handler: handler, MaxRequestBodySize: rawMB, NoDefaultServerHeader: true, NoDefaultDate: true, NoDefaultContentType: true, Logger: runLogger{run},
 		ReadTimeout: time.Duration(sc.cfg.reqTimeoutMs) * time.Millisecond, IdleTimeout: time.Duration(sc.cfg.idleMs) * time.Millisecond}
-	srv := http2.ConfigureServer(fs, http2.ServerConfig{PingInterval: -1, MaxConcurrentStreams: sc.cfg.maxStreams, MaxHeaderListSize: sc.cfg.maxHeaderList})
+	var srv *http2.Server
+	if sc.cfg.ctor == 2 {
+		// no ServerConfig: the ping timer keeps its default of 10 s, far beyond a scenario's life
+		srv = http2.ConfigureServerAndConfig(fs, &tls.Config{})
+	} else {
+		srv = http2.ConfigureServer(fs, http2.ServerConfig{PingInterval: -1, MaxConcurrentStreams: rawMS, MaxHeaderListSize: rawHL})
+	}
 
 	pc := fasthttputil.NewPipeConns()
 	c1, c2 := pc.Conn1(), pc.Conn2()
@@ -508,6 +542,21 @@ func runServerScenario(sc *scenario) string {
 			break
 		}
 		time.Sleep(20 * time.Microsecond)
+	}
+
+	// the bytes of the handshake as the peer read them (compared with Impl/ServerSetup.v srv_handshake_bytes)
+	hsHex := "-"
+	{
+		peer.mu.Lock()
+		var raw []byte
+		for i := 0; i < handshake && i < len(peer.frames); i++ {
+			f := peer.frames[i]
+			n := len(f.payload)
+			raw = append(raw, byte(n>>16), byte(n>>8), byte(n), f.kind, f.flags, byte(f.sid>>24), byte(f.sid>>16), byte(f.sid>>8), byte(f.sid))
+			raw = append(raw, f.payload...)
+		}
+		peer.mu.Unlock()
+		hsHex = hx(raw)
 	}
 
 	// all three loops have to be up (first tick of the read loop and of the stream loop) before
@@ -832,6 +881,7 @@ func runServerScenario(sc *scenario) string {
 		}
 	}
 	res += fmt.Sprintf(" !maxhandlers=%d", run.maxFlight)
+	res += " !hs=" + hsHex
 	if handlersLeft > 0 {
 		res += fmt.Sprintf(" !leak=%d", handlersLeft)
 	}
